@@ -76,9 +76,31 @@ def jobs(prop, tier, seed):
                     b = dict(depth=3, width=3, strlen=3, budget=0)
                     budget_s = 120
                 out.append(dict(harness="C05", variant=variant, pool="ser", pid=pid, opts=o, bounds=b, budget_s=budget_s))
+    # discriminated unions (value direction: the references of the datum direction do not model them)
+    for pid in pools.ids("union", tier):
+        spec, _ = pools.get("union", pid)
+        if not any(s.k == "disc" for s in walk(spec)) or not bijective(spec):
+            continue
+        for o in OPTS[:2]:
+            b = dict(depth=2, width=2, strlen=2, budget=0) if tier == "quick" else dict(depth=3, width=3, strlen=3, budget=0)
+            out.append(dict(harness="C05", variant="value", pool="union", pid=pid, opts=o, bounds=b, budget_s=25 if tier == "quick" else 120))
     for name in sorted(STD):
         out.append(dict(harness="C05", variant="std", pid=f"std:{name}", std=name, opts={}, bounds={}, budget_s=30))
     return out
+
+
+def through_json(x):
+    """what json.dumps / json.loads does to data that is already JSON-like, structurally (no
+    C boundary): an Enum member that is also a str / int comes back as the plain value"""
+    import enum
+
+    if type(x) is list:
+        return [through_json(v) for v in x]
+    if type(x) is dict:
+        return {k: through_json(v) for k, v in x.items()}
+    if isinstance(x, enum.Enum) and isinstance(x, (str, int)):
+        return x.value
+    return x
 
 
 class Inst:
@@ -107,7 +129,7 @@ class Inst:
             v = Val(ctx, self.prog, self.bounds, respect_constraints=True).val(self.prog.spec)
             ctx.witness = v
             ctx.run_phase()
-            d = self.se(v)
+            d = through_json(self.se(v))
             if ctx.concrete is not None:
                 try:
                     d = json.loads(json.dumps(d))  # replay only: json is a C boundary
